@@ -95,14 +95,17 @@ BadHovers(obs) == {i \in DOMAIN obs.hv : ~HoverOK(obs.hv[i])}
 TokensOK(tk) ==
   /\ \A i \in DOMAIN tk : tk[i][2] < tk[i][3] /\ tk[i][1] \in TokenTypes
   /\ \A i \in 1..(Len(tk) - 1) : tk[i][3] <= tk[i + 1][2]
-BadTokens(tk) ==
-  {i \in DOMAIN tk : \/ tk[i][2] >= tk[i][3] \/ tk[i][1] \notin TokenTypes
-                     \/ (i < Len(tk) /\ tk[i][3] > tk[i + 1][2])}
+EmptyTokens(tk)   == {i \in DOMAIN tk : tk[i][2] >= tk[i][3]}
+UnknownTokens(tk) == {i \in DOMAIN tk : tk[i][1] \notin TokenTypes}
+OverlapTokens(tk) == {i \in DOMAIN tk : i < Len(tk) /\ tk[i][3] > tk[i + 1][2]}
 
 \* symbols: <<parentIndex (0 = top), startByte, endByte>> in pre-order
+InvertedSymbols(sy) == {i \in DOMAIN sy : sy[i][2] > sy[i][3]}
 BadSymbols(sy) ==
-  {i \in DOMAIN sy : \/ sy[i][2] > sy[i][3]
-                     \/ (sy[i][1] # 0 /\ ~(sy[sy[i][1]][2] <= sy[i][2] /\ sy[i][3] <= sy[sy[i][1]][3]))}
+  {i \in DOMAIN sy : /\ sy[i][2] <= sy[i][3]
+                     /\ sy[i][1] # 0
+                     /\ sy[sy[i][1]][2] <= sy[sy[i][1]][3]
+                     /\ ~(sy[sy[i][1]][2] <= sy[i][2] /\ sy[i][3] <= sy[sy[i][1]][3])}
 \* siblings are in source order
 UnorderedSymbols(sy) ==
   {i \in DOMAIN sy : \E j \in DOMAIN sy : j < i /\ sy[j][1] = sy[i][1] /\ sy[j][2] > sy[i][2]}
